@@ -42,6 +42,10 @@
 #include <string>
 #include <vector>
 #include <cstdio>
+#include <cstdlib>
+#include <csignal>
+#include <unistd.h>
+#include <sys/time.h>
 #include "gmp++/gmp++.h"
 #include "givinteger.h"
 #include "givrational.h"
@@ -52,6 +56,12 @@
 using namespace Givaro;
 
 static bool B(const Integer& x) { return x != 0; }
+// per-case CPU-time watchdog (ITIMER_PROF counts the CPU time of this process: independent of the machine load): a call that does
+// not return within the budget ends the process with the line DOES-NOT-RETURN (every earlier line is already flushed: std::endl)
+// and exit status 42; the check re-runs that case alone with a larger budget before reporting it.  C11_CASE_CPU = seconds (default 20).
+static long case_budget = 20;
+static void on_prof(int) { const char msg[] = "DOES-NOT-RETURN\n"; if (write(1, msg, sizeof(msg) - 1)) {} _exit(42); }
+static void arm(long sec) { struct itimerval t; t.it_interval.tv_sec = 0; t.it_interval.tv_usec = 0; t.it_value.tv_sec = sec; t.it_value.tv_usec = 0; setitimer(ITIMER_PROF, &t, 0); }
 static bool flags_touched = false;      // has this process called Rational::SetReduce / SetNoReduce yet?
 
 template <class Field>
@@ -100,6 +110,8 @@ static void polycase(const std::string& v, const std::vector<Integer>& a) {
 
 int main() {
     if (!freopen("/dev/null", "w", stderr)) return 3;
+    if (const char* e = getenv("C11_CASE_CPU")) { long v = atol(e); if (v > 0) case_budget = v; }
+    signal(SIGPROF, on_prof);
     std::ios::sync_with_stdio(false);
     std::string line;
     ZRing<Integer> ZZ;
@@ -108,6 +120,7 @@ int main() {
         std::istringstream is(line);
         std::string v; is >> v;
         if (v.empty()) continue;
+        arm(case_budget);        // re-armed for every case; the budget covers parsing + the call + printing
         std::vector<Integer> a; std::string t;
         while (is >> t) a.push_back(Integer(t.c_str()));
         if (v == "consts") {
@@ -214,5 +227,6 @@ int main() {
         else { std::cout << "BAD-LINE" << std::endl; continue; }
         std::cout << (ok ? 1 : 0) << " " << num << " " << den << std::endl;
     }
+    arm(0);
     return 0;
 }
